@@ -40,6 +40,10 @@ def pp_upper(path):
         fh.write(d.upper() + b"#pp")
 
 
+def pp_boom(path):
+    raise Fault("post-processing failed")
+
+
 def expected_bytes(name, postprocess):
     d = content(name)
     return d.upper() + b"#pp" if postprocess else d
@@ -132,21 +136,35 @@ def parse_item(item):
     return scheme
 
 
+def settle_threads():
+    """Pool worker threads may outlive a request that raised; wait for them to finish."""
+    me = threading.current_thread()
+    for t in threading.enumerate():
+        if t is not me and t is not threading.main_thread() and t.daemon and "worker" in t.name:
+            t.join(2.0)
+
+
 class Lab:
     """One cache directory + resources + model, driven operation by operation."""
 
-    def __init__(self, limit_bytes, parallel, tolerant=True, scratch_root=None):
+    def __init__(self, limit_bytes, parallel, tolerant=True, scratch_root=None, attach=None):
         from ocean_science_utilities.filecache.cache_object import FileCache
         self.FileCache = FileCache
-        root = scratch_root or os.environ.get("TMPDIR") or tempfile.gettempdir()
-        self.root = tempfile.mkdtemp(prefix="vkcache_", dir=root)
+        if attach:
+            self.root = attach
+        else:
+            root = scratch_root or os.environ.get("TMPDIR") or tempfile.gettempdir()
+            self.root = tempfile.mkdtemp(prefix="vkcache_", dir=root)
         self.dir = os.path.join(self.root, "cache")
         self.src = os.path.join(self.root, "src")
-        os.makedirs(self.dir)
-        os.makedirs(self.src)
+        os.makedirs(self.dir, exist_ok=True)
+        os.makedirs(self.src, exist_ok=True)
         for n in SIZES:
-            with open(os.path.join(self.src, n), "wb") as fh:
-                fh.write(content(n))
+            sp = os.path.join(self.src, n)
+            if not os.path.exists(sp):
+                with open(sp, "wb") as fh:
+                    fh.write(content(n))
+        self.strict = True
         self.res = make_resource()
         self.local = make_local_resource()
         self.parallel = parallel
@@ -176,6 +194,7 @@ class Lab:
         self.cache.set_directive_function("validate", "vok", lambda p: True)
         self.cache.set_directive_function("validate", "vbad", lambda p: False)
         self.cache.set_directive_function("postprocess", "up", pp_upper)
+        self.cache.set_directive_function("postprocess", "boom", pp_boom)
         if first:
             self.limit = int(self.cache.config.max_size_bytes)
         return self.cache
@@ -192,7 +211,7 @@ class Lab:
         if item.get("validate"):
             d.append(f"validate={item['validate']}")
         if item.get("postprocess"):
-            d.append("postprocess=up")
+            d.append("postprocess=" + ("up" if item["postprocess"] is True else item["postprocess"]))
         raw = (";".join(d) + ":" if d else "") + key
         return raw, key
 
@@ -231,13 +250,20 @@ class Lab:
     def check_invariants(self, where):
         files = self.list_cache_files()
         n = len(self.cache)
-        require(n == len(files), "entries_equal_cache_files_on_disk",
-                f"{where}: len(cache)={n} files on disk={len(files)}")
         want = {cache_file_name(k): k for k in self.model}
         require(len(want) == len(self.model), "distinct_keys_distinct_files", f"{where}")
-        require(set(files) == set(want), "disk_matches_model",
-                f"{where}: on disk only={sorted(set(files) - set(want))} model only="
-                f"{sorted(want[f] for f in set(want) - set(files))}")
+        if self.strict:
+            require(n == len(files), "entries_equal_cache_files_on_disk",
+                    f"{where}: len(cache)={n} files on disk={len(files)}")
+            require(set(files) == set(want), "disk_matches_model",
+                    f"{where}: on disk only={sorted(set(files) - set(want))} model only="
+                    f"{sorted(want[f] for f in set(want) - set(files))}")
+        else:
+            # after a request that raised, complete files may exist that were never registered
+            require(n == len(self.model), "entries_equal_model_entries", f"{where}: len(cache)={n} model={len(self.model)}")
+            require(set(want) <= set(files), "cached_entry_has_its_file",
+                    f"{where}: missing files for {sorted(want[f] for f in set(want) - set(files))}")
+            self.check_no_poison(where)
         for fn, key in want.items():
             with open(os.path.join(self.dir, fn), "rb") as fh:
                 data = fh.read()
@@ -252,6 +278,163 @@ class Lab:
         total = sum(len(v["bytes"]) for v in self.model.values())
         return total
 
+    # -- fault support (C19)
+    def universe(self):
+        """file name -> (key, name) for every key the histories can produce."""
+        out = {}
+        for n in SIZES:
+            for c in (None, "x", "y"):
+                key = f"mem://{n}" + (f"<<{c}" if c else "")
+                out[cache_file_name(key)] = (key, n)
+        return out
+
+    def check_no_poison(self, where):
+        """Every file under a cache-file name holds the complete (raw or post-processed) resource."""
+        uni = self.universe()
+        for fn in self.list_cache_files():
+            require(fn in uni, "no_unknown_cache_files_appear", f"{where}: {fn}")
+            key, name = uni[fn]
+            with open(os.path.join(self.dir, fn), "rb") as fh:
+                data = fh.read()
+            ok = data in (expected_bytes(name, False), expected_bytes(name, True))
+            if key in self.model:
+                ok = data == self.model[key]["bytes"]
+            require(ok, "no_partial_or_rejected_file_under_a_cache_name",
+                    f"{where}: {key} holds {len(data)} bytes, complete resource has {len(content(name))}")
+
+    def sync_model_from_cache(self, where, pp_keys=()):
+        """After a faulted request: whatever the cache says it holds must be complete; adopt it."""
+        uni = self.universe()
+        for fn, (key, name) in uni.items():
+            with warnings.catch_warnings():
+                warnings.simplefilter("ignore")
+                cached = self.cache.in_cache(key) == [True]
+            p = os.path.join(self.dir, fn)
+            if cached:
+                require(os.path.isfile(p), "cache_record_without_file",
+                        f"{where}: {key} is reported as cached but its file does not exist")
+                with open(p, "rb") as fh:
+                    data = fh.read()
+                if key in self.model:
+                    exp = [self.model[key]["bytes"]]
+                elif key in pp_keys:
+                    exp = [expected_bytes(name, True)]
+                else:
+                    exp = [expected_bytes(name, False), expected_bytes(name, True)]
+                require(data in exp, "no_partial_or_rejected_file_served_as_cached",
+                        f"{where}: {key} cached with {len(data)} bytes; complete resource has {len(content(name))}")
+                self.model[key] = {"bytes": data, "rec": self.op}
+            else:
+                self.model.pop(key, None)
+
+    def op_reopen_sync(self, where="after reopen"):
+        """Reopen (simulated crash/restart) and adopt what is on disk, checking it is not poisoned."""
+        self.op += 1
+        self.open_cache()
+        self.strict = True
+        uni = self.universe()
+        self.model = {}
+        for fn in self.list_cache_files():
+            require(fn in uni, "no_unknown_cache_files_appear", f"{where}: {fn}")
+            key, name = uni[fn]
+            with open(os.path.join(self.dir, fn), "rb") as fh:
+                data = fh.read()
+            require(data in (expected_bytes(name, False), expected_bytes(name, True)),
+                    "partial_file_adopted_after_reopen",
+                    f"{where}: {key} holds {len(data)} of {len(content(name))} bytes under a valid cache name")
+            self.model[key] = {"bytes": data, "rec": self.op}
+        self.limit = int(self.cache.config.max_size_bytes)
+        self.check_invariants(where)
+        self.restamp(set(self.list_cache_files()))
+
+    def op_get_faulted(self, items, pos, fault, where="faulted get"):
+        """items: request; pos: index of the item whose download is faulted; fault: spec dict.
+        Returns outcome dict. Checks the immediate contract (omit or raise, others intact)."""
+        from ocean_science_utilities.filecache.remote_resources import _RemoteResourceUriNotFound
+        self.op += 1
+        raws, keys = zip(*[self.uri_of(it) for it in items])
+        target = items[pos]
+        before = {k: dict(v) for k, v in self.model.items()}
+        kind = fault["kind"]
+        if kind == "postprocess_error":
+            items = [dict(it) for it in items]
+            items[pos]["postprocess"] = "boom"
+            raws, keys = zip(*[self.uri_of(it) for it in items])
+        elif kind == "missing":
+            self.res.missing.add(target["name"])
+        else:
+            self.res.faults[target["name"]] = dict(fault)
+        log0 = len(self.res.log)
+        raised = None
+        paths = None
+        try:
+            with warnings.catch_warnings():
+                warnings.simplefilter("ignore")
+                paths = self.cache[list(raws)]
+        except _RemoteResourceUriNotFound as e:
+            raised = ("not_found", e)
+        except Fault as e:
+            raised = ("fault", e)
+        finally:
+            self.res.faults.pop(target["name"], None)
+            self.res.missing.discard(target["name"])
+            settle_threads()
+        fetched = self.res.log[log0:]
+        not_found = kind in ("not_found", "missing")
+        if not_found and self.tolerant:
+            require(raised is None, "tolerant_mode_omits_missing_uri_without_raising", f"{raws} raised {raised}")
+            exp = [os.path.join(self.dir, cache_file_name(k)) for i, k in enumerate(keys) if i != pos]
+            require([os.path.basename(p) for p in paths] == [os.path.basename(p) for p in exp],
+                    "tolerant_mode_omits_exactly_the_failed_uri", f"request={raws} failed={raws[pos]} returned={paths}")
+            for i, (it, key) in enumerate(zip(items, keys)):
+                if i == pos:
+                    continue
+                p = os.path.join(self.dir, cache_file_name(key))
+                expb = before[key]["bytes"] if key in before and it.get("validate") != "vbad" \
+                    else expected_bytes(it["name"], it.get("postprocess"))
+                require(os.path.isfile(p), "returned_path_exists", f"{key}")
+                with open(p, "rb") as fh:
+                    data = fh.read()
+                require(data == expb, "returned_path_holds_resource_bytes", f"{key}: {len(data)} vs {len(expb)}")
+        else:
+            require(raised is not None, "failed_fetch_must_raise_or_be_omitted",
+                    f"request={raws} fault={fault} strict/IO failure but returned {paths}")
+            if not_found:
+                require(raised[0] == "not_found", "strict_mode_raises_not_found", f"{raised}")
+        self.strict = False if raised is not None else self.strict
+        # every previously cached key other than a rejected one is intact
+        rejected = {k for it, k in zip(items, keys) if it.get("validate") == "vbad"}
+        for k, v in before.items():
+            if k in rejected:
+                continue
+            p = os.path.join(self.dir, cache_file_name(k))
+            require(os.path.isfile(p), "previously_cached_uri_intact", f"{where}: {k} file is gone")
+            with open(p, "rb") as fh:
+                require(fh.read() == v["bytes"], "previously_cached_uri_intact", f"{where}: {k} bytes changed")
+        # the failed key must not be cached
+        with warnings.catch_warnings():
+            warnings.simplefilter("ignore")
+            still = self.cache.in_cache(keys[pos]) == [True]
+        if still:
+            # only legitimate if it was cached before and not rejected
+            require(keys[pos] in before and keys[pos] not in rejected, "failed_uri_not_registered_as_cached",
+                    f"{where}: {keys[pos]} is reported as cached after its fetch failed")
+        if raised is not None or not_found:
+            # nothing of the failed download may sit under the final cache name: neither a partial file
+            # nor a complete one whose post-processing failed
+            if keys[pos] not in before or keys[pos] in rejected:
+                pth = os.path.join(self.dir, cache_file_name(keys[pos]))
+                require(not os.path.exists(pth), "failed_download_leaves_nothing_under_the_cache_name",
+                        f"{where}: {keys[pos]} fault={fault}: a file of {os.path.getsize(pth) if os.path.exists(pth) else 0} "
+                        f"bytes exists under its cache name")
+        pp_keys = {k for it, k in zip(items, keys) if it.get("postprocess") is True}
+        self.sync_model_from_cache(where, pp_keys)
+        self.check_invariants(where)
+        self.restamp(set(self.list_cache_files()))
+        return {"raised": raised[0] if raised else None, "fetched": fetched}
+
+
+    # -- operations
     # -- operations
     def op_get(self, items, expect_fail=None):
         """Fault-free get. Returns info dict."""
@@ -312,7 +495,10 @@ class Lab:
         evicted = [k for fn, k in name_of.items() if fn not in on_disk]
         kept = [k for fn, k in name_of.items() if fn in on_disk]
         extra = on_disk - set(name_of)
-        require(not extra, "no_unknown_cache_files_appear", f"{sorted(extra)}")
+        if self.strict:
+            require(not extra, "no_unknown_cache_files_appear", f"{sorted(extra)}")
+        else:
+            self.check_no_poison(f"after get {raws}")
         for k in evicted:
             require(k not in keys, "current_request_never_evicted", f"evicted {k} requested in this call {raws}")
         total = sum(len(self.model[k]["bytes"]) for k in kept)
